@@ -131,6 +131,19 @@ class Fixed(unittest.TestCase):
         self.assertEqual(r['error']['name'], 'RbqlRuntimeError')
 
 
+    def test_F21_column_named_like_the_literal_placeholder(self):
+        names = ['___RBQL_STRING_LITERAL0___', 'val']
+        self.assertEqual(q("SELECT a['___RBQL_STRING_LITERAL0___'], NR", [['foo', 'x'], ['bar', 'y']], an=names)[0], [['foo', 1], ['bar', 2]])
+        self.assertEqual(jsq("SELECT a['___RBQL_STRING_LITERAL0___'], NR", [['foo', 'x'], ['bar', 'y']], an=names)['records'], [['foo', 1], ['bar', 2]])
+
+    def test_F22_js_header_of_quoted_name_with_escapes(self):
+        for name in ('\t', 'x\ny', 'p\\"q', "it's"):
+            lit = '"' + name.replace('\\', '\\\\').replace('"', '\\"').replace('\n', '\\n').replace('\t', '\\t') + '"'
+            r = jsq('SELECT a[%s], NR' % lit, [['foo', 'x']], an=[name, 'val'])
+            self.assertEqual(r.get('header'), [name, 'NR'], name)
+            self.assertEqual(q('SELECT a[%s], NR' % lit, [['foo', 'x']], an=[name, 'val'])[1], [name, 'NR'], name)
+
+
 class Known(unittest.TestCase):
     @unittest.expectedFailure
     def test_F7_attribute_like_text_in_literal_with_header(self):
